@@ -88,6 +88,11 @@ def cases(draw):
         up["restarts.use_restarts"] = True
         if draw(st.booleans()):
             up["restarts.use_soft_restarts"] = False
+        elif draw(st.booleans()):
+            up["restarts.increase_npt"] = True           # soft restarts append points to the set (npt grows beyond n+1 only there)
+            up["restarts.max_npt"] = n + 1 + draw(st.integers(1, 2))
+            base["rhoend"] = rb * 1e-2
+            tags.append("soft-restart-adds-points")
         tags.append("restarts")
     if draw(st.integers(0, 3)) == 0:
         up["dykstra.d_tol"] = draw(st.sampled_from([1e-12, 1e-8, 1e-6]))
